@@ -240,6 +240,12 @@ def _run_step(o, step, init):
         res = [o.cm(arr(step["thr"])).matrix]
     elif op == "rate":
         res = [getattr(o, step["m"])(arr(step["thr"]))]
+    elif op == "rate_buf":
+        # the caller re-uses one array object, overwriting its contents in place between queries
+        buf = init.setdefault("_buffers", {}).setdefault(id(o), np.zeros(3))
+        buf[...] = step["vals"]
+        args.append((buf, buf.copy()))
+        res = [getattr(o, step["m"])(buf)]
     elif op == "thr":
         res = [getattr(o, "threshold_at_" + step["m"])(arr(step["tg"]), method=step["method"])]
     elif op == "eer":
@@ -302,7 +308,8 @@ def _applicable(step, init):
 
 
 def check_history(case):
-    init, steps = case["init"], case["steps"]
+    init, steps = dict(case["init"]), case["steps"]
+    init.pop("_buffers", None)
     proto = _make_arrays(init)
     caller = {k: (v.copy() if v is not None else None) for k, v in proto.items()}
     arrays = {k: (v.copy() if v is not None else None) for k, v in caller.items()}
@@ -408,6 +415,12 @@ def make_machine(tier, on_history):
         @rule(data=st.data(), m=st.sampled_from(RATE_NAMES))
         def rate(self, data, m):
             self.steps.append(dict(op="rate", m=m, thr=data.draw(_small_thr(self.vals))))
+
+        @rule(data=st.data(), m=st.sampled_from(RATE_NAMES + ["cm"]))
+        def rate_buf(self, data, m):
+            pool = sorted(set(float(x) for x in self.vals)) + [0.0, 0.25, -1.0, 1.5]
+            vals = data.draw(st.lists(st.sampled_from(pool), min_size=3, max_size=3))
+            self.steps.append(dict(op="rate_buf", m="tpr" if m == "cm" else m, vals=vals))
 
         @rule(m=st.sampled_from(THR_NAMES), method=st.sampled_from(METHODS), tg=_small_targets())
         def thr(self, m, method, tg):
